@@ -267,7 +267,8 @@ func c17(c *Ctx) {
 		for i, st := range sites {
 			core.WithSubst(st.subst, func() {
 				fn, ret := st.fn, st.ret
-				recv := ssa.Value(fn.Params[0])
+				// the listener is Accept's receiver (a helper's parameters stand for Accept's values)
+				recv := ssa.Value(A.Params[0])
 				v := core.Strip(core.ReturnOperand(ret, 0))
 				if core.IsNilConst(v) {
 					return
@@ -409,7 +410,7 @@ func registryAssert(ta *ssa.TypeAssert) bool {
 	case *ssa.Extract:
 		if lc, ok := x.Tuple.(*ssa.Call); ok {
 			n := core.CalleeName(lc.Common())
-			if (n == "(*sync.Map).Load" || n == "(*sync.Map).LoadOrStore") && x.Index == 0 && core.PathOf(lc.Call.Args[0]).HasFields("babyListeners") {
+			if (n == "(*sync.Map).Load" || n == "(*sync.Map).LoadOrStore") && x.Index == 0 && isRegistry(lc.Call.Args[0], 0) {
 				return isML
 			}
 		}
@@ -424,7 +425,7 @@ func registryAssert(ta *ssa.TypeAssert) bool {
 				continue
 			}
 			for _, rc := range callsNamed(pf, "(*sync.Map).Range") {
-				if fnValue(rc.Call.Args[1]) == fn && core.PathOf(rc.Call.Args[0]).HasFields("babyListeners") {
+				if fnValue(rc.Call.Args[1]) == fn && isRegistry(rc.Call.Args[0], 0) {
 					if x == fn.Params[0] {
 						return isStr
 					}
@@ -664,4 +665,71 @@ func c17BaseFailure(c *Ctx) {
 	if n == 0 {
 		r.Unk("R-C17.6", name+" base-failure returns", p.Pos(base.Pos()), "none found")
 	}
+}
+
+
+// isRegistry: v denotes the split listener's sub-listener registry - the
+// babyListeners field itself, or a *sync.Map parameter of a helper that every
+// call site in the module hands that field.
+func isRegistry(v ssa.Value, depth int) bool {
+	pp := core.PathOf(v)
+	if strings.TrimPrefix(pp.Last(), "&") == "babyListeners" {
+		return true
+	}
+	var prm *ssa.Parameter
+	switch x := core.Strip(v).(type) {
+	case *ssa.Parameter:
+		prm = x
+	case *ssa.FreeVar:
+		// a closure inside the helper: the captured variable is the helper's parameter
+		if pf := x.Parent().Parent(); pf != nil {
+			for _, in := range closuresCreating(pf, x.Parent()) {
+				for i, b := range in.Bindings {
+					if i < len(x.Parent().FreeVars) && x.Parent().FreeVars[i] == x {
+						return isRegistry(b, depth+1)
+					}
+				}
+			}
+		}
+		return false
+	}
+	if pr, isRoot := pp.Root.(*ssa.Parameter); prm == nil && isRoot && len(pp.Fields) == 0 {
+		prm = pr
+	}
+	if prm == nil || depth > 2 {
+		return false
+	}
+	h := prm.Parent()
+	idx := -1
+	for i, q := range h.Params {
+		if q == prm {
+			idx = i
+		}
+	}
+	if idx < 0 || core.CurProg == nil {
+		return false
+	}
+	n := 0
+	for _, fn := range core.CurProg.ModuleFuncs() {
+		for _, cc := range callsTo(fn, h) {
+			n++
+			if idx >= len(cc.Call.Args) || !isRegistry(cc.Call.Args[idx], depth+1) {
+				return false
+			}
+		}
+	}
+	return n > 0
+}
+
+// closuresCreating lists the MakeClosure instructions in pf that create fn.
+func closuresCreating(pf, fn *ssa.Function) []*ssa.MakeClosure {
+	var out []*ssa.MakeClosure
+	for _, b := range pf.Blocks {
+		for _, in := range b.Instrs {
+			if mc, ok := in.(*ssa.MakeClosure); ok && mc.Fn == ssa.Value(fn) {
+				out = append(out, mc)
+			}
+		}
+	}
+	return out
 }
